@@ -44,6 +44,7 @@ PROPS = {
     ]},
     "C07": {"jobs": [
         rapid("C07a", 2000, 5000, shrinktime="15s", race_shards=1),
+        rapid("C07b", 16, 96, shards=8, shrinktime="10s"),
     ]},
     "C14": {"level": "fault_enumeration", "jobs": [
         {"sub": "C14a", "kind": "test", "run": "TestC14Grid"},
